@@ -1,6 +1,6 @@
 """C06 — a time is Invalid exactly when the solar event does not occur (engine M, UF + lemmas)."""
 from ..common import *
-from ..obl import base, kernels, wiring, policy, jd
+from ..obl import base, kernels, wiring, policy, jd, rounding
 from . import kernelprop as kp
 
 LEVEL = "model_checking"
@@ -15,14 +15,20 @@ def run(rep):
     rep.bounds = {"latitude": "[-89.5,89.5]", "declination": "[-23.7,23.7]", "angles": "[9,21]", "exemption": "0.05 deg band (property) - the kernel claim itself is exact"}
     rep.assumptions += kp.COMMON_ASSUMPTIONS
     res = base.run_obligations(rep, [(kernels.fajr_isha, 89.5), (kernels.shur_magh_adj, 89.5), (wiring.get_hours_wiring, None),
-                                     (policy.policy_clauses, ("None", ["none"], "named")), (jd.jd_formula, (1600, 2399))])
+                                     (policy.policy_clauses, ("None", ["none"], "named")), (jd.jd_formula, (1600, 2399)),
+                                     (wiring.prayer_times_dt_wiring, False),
+                                     (rounding.rounding, ("SpecialRounding", "Fajr", -50, 75, 1500)), (rounding.rounding, ("SpecialRounding", "Isha", -50, 75, 1500)),
+                                     (rounding.rounding, ("SpecialRounding", "Shurooq", -50, 75, 1500))])
+    if any(x["cands"] for x in res if x["name"].startswith("hour_to_time")):
+        from . import c11
+        c11.confirm_rounding(rep, res)
     if any(x["cands"] for x in res if x["name"].startswith("JulianDay")):
         from . import c01
         c01.confirm_jd(rep, res)
     if any(x["cands"] for x in res if x["name"].startswith("adj_for_ext_lat")):
         from . import policyprop as pp
         pp.confirm_kadj(rep, res, None)
-    kp.confirm(rep, [x for x in res if not x["name"].startswith(("JulianDay", "adj_for_ext_lat"))], WANT, 89.5)
+    kp.confirm(rep, [x for x in res if not x["name"].startswith(("JulianDay", "adj_for_ext_lat", "hour_to_time"))], WANT, 89.5)
     rep.samples = [{"obligation": o["name"], "status": o["status"], "paths": o.get("paths"), "queries": o.get("queries")} for o in rep.obligations]
 
 
